@@ -213,6 +213,8 @@ class Ctx:
             val = m.eval(v, model_completion=True)
             if z3.is_bv_value(val):
                 out[k] = val.as_long()
+            elif z3.is_int_value(val):
+                out[k] = val.as_long()
             elif z3.is_rational_value(val):
                 out[k] = "%d/%d" % (val.numerator_as_long(), val.denominator_as_long())
             elif z3.is_algebraic_value(val):
@@ -948,20 +950,35 @@ def sym_real(name):
 
 def choice(name, n):
     """A symbolic selector in range(n) that is decided immediately (one path per value).  It is a
-    solver variable like any other, so it appears in counterexamples and replays."""
+    solver variable like any other, so it appears in counterexamples and replays.  The variable is
+    fresh, hence every value is feasible: the fork is n-ary and needs no solver call."""
     if MODE == "concrete":
         return builtins.int(_conc_get(name))
+    c = CTX
     if n <= 1:
-        CTX.inputs[name] = z3.BitVecVal(0, 1)
+        c.inputs[name] = z3.BitVecVal(0, 1)
         return 0
     w = bitlen(n - 1)
-    v = CTX.fresh(name, w, kind=("choice", n))
-    CTX.add(z3.ULT(v, n)) if (1 << w) != n else None
-    for k in range(n - 1):
-        if CTX.branch(v == k):
-            return k
-    CTX.add(v == n - 1)
-    return n - 1
+    v = c.fresh(name, w, kind=("choice", n))
+    c.tick()
+    site = "choice:" + name
+    if c.pos < len(c.prefix):
+        d, tag, h0 = c.prefix[c.pos]
+        if h0 != site:
+            c.flag = "error"
+            raise NonDeterminism("decision %d is %s on re-execution, was %s" % (c.pos, site, h0))
+        k = tag
+        c.pos += 1
+    else:
+        k = 0
+        base = c.prefix[: c.pos]
+        for alt in range(n - 1, 0, -1):
+            c.pending.append(base + [(True, alt, site)])
+        c.prefix = base + [(True, 0, site)]
+        c.pos += 1
+        c.fork_sites[site] = c.fork_sites.get(site, 0) + 1
+    c.add(v == k)
+    return k
 
 
 def assume(c):
